@@ -26,7 +26,9 @@ func runC17(c *Ctx) {
 	c.Rule("C17-R4", "summary always posted; delete errors collected", 3)
 	c.Rule("C17-R5", "reports reach the commenters in a total order (comparator keys, shared with C11-R1)", 8)
 	defer c11ComparatorKeys(c, "C17-R5")
+	defer c11NestedDetailsSorted(c, "C17-R5")
 	defer c17ListFilters(c)
+	defer c17ErrorsEndTheRun(c, "C17-R4")
 	defer c17FirstNoteOnly(c)
 
 	ud := c.MustFunc("C17-R1", "internal/reporter.updateDestination")
@@ -582,4 +584,122 @@ func c17FirstNoteOnly(c *Ctx) {
 	})
 	c.Check(!again, "C17-R3", "GitLabReporter.List:a discussion is identified by its first note", loop.Pos(), "the note loop never starts a second iteration",
 		"the loop over a discussion's notes can go on to a second note: a reply from another user or a system note then makes pint's own discussion look foreign (it is skipped) or overwrites the recorded note, so the existing comment is no longer recognised and is posted again on every run")
+}
+
+// c17ErrorsEndTheRun: a failed request never ends as a shorter answer. In
+// internal/reporter every branch taken because an error is present (`err !=
+// nil`) hands that error on: its last statement returns it (as it is or
+// wrapped). Leaving a loop with `break`/`continue` under `err != nil`, or
+// falling out of the branch, lets the caller go on with what was collected so
+// far — for the listing helpers that is a truncated list of existing comments,
+// and every comment on the missing pages is created again and never removed.
+func c17ErrorsEndTheRun(c *Ctx, R string) {
+	rep := c.P.Pkg("internal/reporter")
+	if rep == nil {
+		return
+	}
+	info := rep.TypesInfo
+	n := 0
+	for _, fi := range c.P.AllFuncs() {
+		if fi.Pkg != rep || fi.Decl.Body == nil || c.P.IsTestFile(fi.Decl.Pos()) {
+			continue
+		}
+		// only functions that can return an error
+		sig := fi.Obj.Type().(*types.Signature)
+		hasErr := false
+		for i := 0; i < sig.Results().Len(); i++ {
+			if sig.Results().At(i).Type().String() == "error" {
+				hasErr = true
+			}
+		}
+		if !hasErr {
+			continue
+		}
+		seq := 0
+		inspectNoLit(fi.Decl.Body, func(nd ast.Node) bool {
+			ifs, ok := nd.(*ast.IfStmt)
+			if !ok {
+				return true
+			}
+			var errObj types.Object
+			for _, a := range implied(ifs.Cond, nil, true) {
+				if x, isNil, ok := nilAtom(info, a); ok && !isNil {
+					if o := objOf(info, x); o != nil && o.Type().String() == "error" {
+						errObj = o
+					}
+				}
+			}
+			if errObj == nil {
+				return true
+			}
+			n++
+			seq++
+			why := ""
+			if len(ifs.Body.List) == 0 {
+				why = "the branch is empty"
+			} else {
+				switch last := ifs.Body.List[len(ifs.Body.List)-1].(type) {
+				case *ast.ReturnStmt:
+					mentions := false
+					for _, r := range last.Results {
+						ast.Inspect(r, func(m ast.Node) bool {
+							if id, isID := m.(*ast.Ident); isID && info.Uses[id] == errObj {
+								mentions = true
+							}
+							return true
+						})
+					}
+					if len(last.Results) == 0 {
+						// named results: fine when the error variable is one of them
+						for i := 0; i < sig.Results().Len(); i++ {
+							if types.Object(sig.Results().At(i)) == errObj {
+								mentions = true
+							}
+						}
+					}
+					if !mentions {
+						// a constructed error (errors.New, fmt.Errorf without %w) still ends the run
+						for _, r := range last.Results {
+							if t := info.TypeOf(r); t != nil && t.String() == "error" && !isNilIdent(info, r) {
+								mentions = true
+							}
+						}
+					}
+					if !mentions {
+						why = "the branch returns without the error"
+					}
+				case *ast.BranchStmt:
+					why = "the branch leaves with `" + last.Tok.String() + "`"
+				default:
+					// logging only and going on is the documented behaviour for a few best-effort calls:
+					// those sit outside loops; inside a loop the collection goes on with a hole
+					inLoop := false
+					for cur := parentMap(fi.Decl.Body)[ifs]; cur != nil; cur = parentMap(fi.Decl.Body)[cur] {
+						switch cur.(type) {
+						case *ast.ForStmt, *ast.RangeStmt:
+							inLoop = true
+						}
+					}
+					collected := false
+					ast.Inspect(ifs.Body, func(m ast.Node) bool {
+						if call, isCall := m.(*ast.CallExpr); isCall && exprStr(call.Fun) == "append" {
+							for _, a := range call.Args[1:] {
+								if objOf(info, a) == errObj {
+									collected = true // kept for the final verdict (the delete phase does this on purpose)
+								}
+							}
+						}
+						return true
+					})
+					if inLoop && !collected {
+						why = "the branch falls through inside a loop"
+					}
+				}
+			}
+			c.Check(why == "", R, strings.TrimPrefix(fi.Name, "internal/reporter.")+":error branch#"+itoa(seq)+" returns the error", ifs.Pos(), "returned",
+				why+": the failed request is forgotten and the caller continues with what was collected before it — a truncated list of existing comments makes the next phase create copies of comments that exist, and nothing removes them later")
+			return true
+		})
+	}
+	c.Check(n >= 20, R, "error branches in internal/reporter enumerated", token.NoPos, itoa(n), "fewer than 20 `err != nil` branches found")
 }
